@@ -577,6 +577,37 @@ pub fn c09_ref_script_languages<S: Src>(_s: &mut S) {
     assert!(failures.is_empty(), "{} reference-script scenarios give a script data hash the ledger would not derive; first: {}", failures.len(), failures[0]);
 }
 
+// ---------------------------------------------------------------- C06: the reference-script fee covers every script a spent input takes from a reference input
+pub fn c06_ref_script_sizes<S: Src>(_s: &mut S) {
+    let mut failures: Vec<String> = Vec::new();
+    let price = UnitInterval::new(&bn(15), &bn(1));
+    for variant in 0..3u8 {
+        // variant 0: two inputs of one native script, each through its own reference; 1: the same with a Plutus script; 2: two different scripts
+        let sizes = [30_000usize, 20_000];
+        let mut tb = TransactionBuilder::new(&config(true));
+        let mut ib = TxInputsBuilder::new();
+        for i in 0..2u8 {
+            let txin = TransactionInput::new(&TransactionHash::from([3 + i; 32]), 0);
+            let refin = TransactionInput::new(&TransactionHash::from([40 + i; 32]), 1);
+            if variant == 1 {
+                let ps = PlutusScript::new_v2(vec![9u8, 9]);
+                let src = PlutusScriptSource::new_ref_input(&ps.hash(), &refin, &Language::new_plutus_v2(), sizes[i as usize]);
+                ib.add_plutus_script_input(&PlutusWitness::new_with_ref(&src, &DatumSource::new(&PlutusData::new_bytes(vec![i])), &redeemer_with_marker(&RedeemerTag::new_spend(), i)), &txin, &Value::new(&bn(100_000_000)));
+            } else {
+                let ns = native_script(if variant == 2 { 20 + i } else { 20 });
+                let mut src = NativeScriptSource::new_ref_input(&ns.hash(), &refin, sizes[i as usize]);
+                src.set_required_signers(&Ed25519KeyHashes::new());
+                ib.add_native_script_input(&src, &txin, &Value::new(&bn(100_000_000)));
+            }
+        }
+        tb.set_inputs(&ib);
+        let fee: u64 = match tb.min_fee() { Ok(f) => f.into(), Err(_) => continue };       // (no execution-unit prices configured for the Plutus variant: nothing to compare)
+        let ref_fee: u64 = min_ref_script_fee(sizes[0] + sizes[1], &price).map(u64::from).unwrap_or(0);
+        if fee < ref_fee + 155_381 { failures.push(format!("variant {}: two spent inputs take scripts of {} and {} bytes from two reference inputs; the builder's minimum fee {} is below the reference-script fee {} of their total size plus the constant", variant, sizes[0], sizes[1], fee, ref_fee)); }
+    }
+    assert!(failures.is_empty(), "{} reference-script scenarios are under-charged; first: {}", failures.len(), failures[0]);
+}
+
 // ---------------------------------------------------------------- C09 first clause: auxiliary-data hash
 fn blake2b256_ref(data: &[u8]) -> [u8; 32] {
     use cryptoxide::hashing::blake2b::Blake2b;
